@@ -737,6 +737,8 @@ def _expand(fi: FuncInfo, caller_names: set[str], st: ast.stmt, select: Callable
                     if isinstance(e, ast.Name) and e.id == t.id:
                         continue  # handed back into the same local
                     res.append(ast.Assign(targets=[clone(t)], value=e))
+            elif len(targets) == 1 and isinstance(targets[0], ast.Name) and isinstance(val, ast.Name) and val.id == targets[0].id:
+                pass  # handed back into the same local: nothing to bind
             else:
                 res.append(ast.Assign(targets=clone(targets), value=val))
         elif v is not None and not isinstance(v, (ast.Constant, ast.Name)):
